@@ -127,7 +127,10 @@ pub const OWN_GEN: u32 = 10;
 pub fn gen_hp(seed: u64, profile: &str, tier: Tier) -> HP {
     let mut s = Stream::new(seed, "hist-params");
     let policy = gen_policy(&mut s);
-    let codec = gen_codec(&mut s);
+    let mut codec = gen_codec(&mut s);
+    if profile == "C20" {
+        codec = if s.chance(1, 2) { CodecKind::Bincode } else { CodecKind::Postcard };
+    }
     let wild = profile == "C06";
     let mut setup = Setup { id: SimId::new(1, OWN_GEN), cfg: Config::simple(), codec, policy, hcfg: gen_hcfg(&mut s), rng_seed: s.next() };
     let min_mps = min_packet(&setup);
@@ -168,6 +171,10 @@ pub fn gen_hp(seed: u64, profile: &str, tier: Tier) -> HP {
         "C19" | "C10" | "C09" | "C08" => {
             weights[3] = weights[3].max(10);
             weights[8] = weights[8].max(5);
+        }
+        "C20" => {
+            weights[1] = weights[1].max(6) * 3;
+            weights[2] = weights[2].max(3) * 2;
         }
         "C06" => {
             weights[1] = weights[1].max(6) * 2;
@@ -609,6 +616,7 @@ pub fn nontrivial_for(focus: &str, out: &RunOut) -> bool {
         "C15" => g("c15_nonempty_sections") > 0,
         "C16" => g("c16_items_sent") + g("c16_items_received") > 0,
         "C19" => g("datagrams_checked") > 0,
+        "C20" => g("calls") > 5,
         _ => true,
     }
 }
